@@ -220,4 +220,90 @@ theorem reach_inside {ss : SymSet} {x : Ind} (h : WF ss x) {l0 : Locus} (h0 : In
     simp only [List.mem_range] at hi
     exact reachRow_inside h i hi act hact
 
+/-! ### step relations preserve well-formedness (per relation) -/
+
+theorem SameShape.refl (x : Ind) : SameShape x x := ⟨rfl, rfl⟩
+
+theorem MutStep.refl (ss : SymSet) (pl : Nat) (x : Ind) : MutStep ss pl x x :=
+  ⟨SameShape.refl x, rfl, rfl, rfl, fun _ _ _ _ => Or.inl rfl⟩
+
+theorem MutStep.set {ss : SymSet} {pl : Nat} {pre y : Ind} (h : MutStep ss pl pre y)
+    {i c : Nat} {g : Gene} (hg : FreshGeneOK ss pre.rows pre.cols pl i c g) :
+    MutStep ss pl pre (setGene y i c g) := by
+  obtain ⟨hs, hb, ha, hx, hgen⟩ := h
+  refine ⟨hs, hb, ha, hx, ?_⟩
+  intro i' hi' c' hc'
+  rw [setGene_gene]
+  by_cases hh : i' = i ∧ c' = c
+  · simp only [hh, and_self, if_true]
+    obtain ⟨rfl, rfl⟩ := hh
+    exact Or.inr hg
+  · simp only [hh, if_false]
+    exact hgen i' hi' c' hc'
+
+theorem getD_eq_getElem' {α} (l : List α) (k : Nat) (d : α) (h : k < l.length) :
+    l.getD k d = l[k] := by
+  simp [List.getD, List.getElem?_eq_getElem h]
+
+theorem getD_mem_of_lt {α} (l : List α) (k : Nat) (d : α) (h : k < l.length) : l.getD k d ∈ l := by
+  rw [getD_eq_getElem' _ _ _ h]
+  exact List.getElem_mem h
+
+theorem exists_getD_of_mem {α} {l : List α} {a : α} (d : α) (h : a ∈ l) :
+    ∃ k, k < l.length ∧ l.getD k d = a := by
+  obtain ⟨k, hk, rfl⟩ := List.getElem_of_mem h
+  exact ⟨k, hk, getD_eq_getElem' _ _ _ hk⟩
+
+/-! ### unfold -/
+
+theorem unfoldF_same_gene (x : Ind) (f i c i' c' : Nat) (h : x.gene i c = x.gene i' c') :
+    unfoldF x f i c = unfoldF x f i' c' := by
+  cases f with
+  | zero => simp [unfoldF, h]
+  | succ f => simp [unfoldF, h]
+
+theorem map_zipWith_congr {β} (F F' : Locus → β) (as as' cs : List Nat)
+    (hl : as'.length = as.length)
+    (h : ∀ k, k < as.length → k < cs.length →
+      F' ⟨as'.getD k 0, cs.getD k 0⟩ = F ⟨as.getD k 0, cs.getD k 0⟩) :
+    (List.zipWith Locus.mk as' cs).map F' = (List.zipWith Locus.mk as cs).map F := by
+  induction as generalizing as' cs with
+  | nil =>
+    cases as' with
+    | nil => simp
+    | cons a t => simp at hl
+  | cons a t ih =>
+    cases as' with
+    | nil => simp at hl
+    | cons a' t' =>
+      cases cs with
+      | nil => simp
+      | cons c ct =>
+        simp only [List.zipWith_cons_cons, List.map_cons, List.cons.injEq]
+        constructor
+        · have := h 0 (by simp) (by simp)
+          simpa using this
+        · apply ih
+          · simpa using hl
+          · intro k hk hk'
+            have := h (k + 1) (by simp; omega) (by simp; omega)
+            simpa using this
+
+theorem unfoldF_stable {ss : SymSet} {x : Ind} (h : WF ss x) :
+    ∀ f1 f2 i c, i < x.rows → c < x.cols → x.rows - i ≤ f1 → x.rows - i ≤ f2 →
+      unfoldF x f1 i c = unfoldF x f2 i c := by
+  intro f1
+  induction f1 with
+  | zero => intro f2 i c hi _ h1 _; omega
+  | succ f1 ih =>
+    intro f2 i c hi hc h1 h2
+    cases f2 with
+    | zero => omega
+    | succ f2 =>
+      simp only [unfoldF, Tree.node.injEq, true_and]
+      apply List.map_congr_left
+      intro l hl
+      have := argLoci_inside (h.genes i hi c hc) hl
+      exact ih f2 l.idx l.cat this.2.1 this.2.2 (by omega) (by omega)
+
 end Vita.C02
